@@ -6,5 +6,5 @@ MCCalls == [pr \in {<<x, i>> : x \in MCFuncs, i \in 1..2} |->
               CASE pr[1] = "f" -> {<<"f", pr[2]>>, <<"g", pr[2]>>}
                 [] pr[1] = "g" -> {<<"h", 1>>, <<"h", 2>>, <<"f", pr[2]>>}
                 [] pr[1] = "h" -> {<<"g", 3 - pr[2]>>, <<"h", pr[2]>>}]
-MCShapes == {"lit1", "lit2", "litops", "litbool", "litpair", "self", "mutual", "closure", "named", "forward", "foreign", "iface", "assigned", "closureNamed", "wide", "chain", "closure3", "spread"}
+MCShapes == {"lit1", "lit2", "litops", "litbool", "litpair", "self", "mutual", "closure", "named", "forward", "foreign", "iface", "assigned", "closureNamed", "wide", "chain", "closure3", "spread", "litoctal", "localconst", "localconststr"}
 =============================================================================
